@@ -253,6 +253,8 @@ func (cf *c15File) flatten(tname, jprefix, gprefix, parent string, out *[]*c15JF
 			jf.kind = "KInt"
 		case "float64":
 			jf.kind = "KFloat"
+		case "*bool":
+			jf.kind, jf.ptr = "KBool", true
 		case "*float64":
 			jf.kind, jf.ptr = "KFloat", true
 		case "*options.FileLoadingMode":
